@@ -3,7 +3,8 @@
 (* guarded hooks):                                                                                 *)
 (*  Rtl      [nl, rank, inputs, shuffle1, shuffle2, swapped (seqs of <<mono, group, index>>),        *)
 (*            structure (seq of <<monotonicities, lattices of indices>>), again (second run, same seed), *)
-(*            nInc, nUnc (sizes of the 'increasing' / 'unconstrained' outputs)]                     *)
+(*            nInc, nUnc (sizes of the 'increasing' / 'unconstrained' outputs),                      *)
+(*            resp (per supplied column: <<supplied as increasing?, min, max change of the lattice outputs>>)] *)
 (*  Random   [nf, nl, rank, lattices (feature numbers 1..nf), again]                                *)
 (*  Cover    [nf, rank, lattices]                                                                   *)
 (*  Crystals [nf, nl, rank, tt, lp (scaled integer scores), uses, placed, final]                    *)
@@ -36,6 +37,12 @@ RtlClauses(e) ==
      \cup (IF \A g \in 1..Len(e.structure) : \A k \in 1..Len(e.structure[g][2]) : \A p \in 1..e.rank :
                 InputOf(e.inputs, e.structure[g][2][k][p])[1] = 1 => e.structure[g][1][p] = 1
            THEN {} ELSE {"IncreasingInputOnMonotoneSlot"})
+     \* the same statement observed on the layer's behaviour (kernels increasing along monotone, decreasing along
+     \* unconstrained dimensions): raising a column supplied as 'increasing' lowers no lattice output and raises one,
+     \* raising an 'unconstrained' column raises none and lowers one
+     \cup (IF \A c \in 1..Len(e.resp) : IF e.resp[c][1] = 1 THEN e.resp[c][2] >= 0 /\ e.resp[c][3] > 0
+                                                            ELSE e.resp[c][3] <= 0 /\ e.resp[c][2] < 0
+           THEN {} ELSE {"IncreasingInputBehavesMonotone"})
      \cup (IF e.nInc = Cardinality({k \in 1..Len(lats) : \E p \in 1..e.rank : lats[k][p][1] = 1})
               /\ e.nUnc = Len(lats) - e.nInc THEN {} ELSE {"OutputLabel"})
      \cup (IF e.again = e.structure THEN {} ELSE {"DeterministicInSeed"})
